@@ -230,10 +230,18 @@ def r16_2(ctx, pf, loop):
     it = loop.iter
     if getattr(pf, "optional_arg", None) is not None and isinstance(it, ast.Name):
         it = pf.optional_arg  # the loop is in a helper: what the parser hands it
+    if isinstance(it, ast.Name) and it.id not in pf.params:
+        from ..core import make_resolver
+
+        it = make_resolver(pf.node.body)(it)  # a local for the window of optional columns
     ok = isinstance(it, ast.Subscript) and isinstance(it.slice, ast.Slice) and const_value(it.slice.lower) == 12 and it.slice.upper is None and it.slice.step is None
     if isinstance(it, ast.Call) and norm(it.func) in ("islice", "itertools.islice") and len(it.args) in (2, 3):
         # islice(cols, 12, None): the same window, lazily
         ok = const_value(it.args[1]) == 12 and (len(it.args) == 2 and False or len(it.args) == 3 and const_value(it.args[2], "?") is None)
+    if not ok and isinstance(it, ast.Name):
+        whole = any(isinstance(st, ast.Assign) and norm(st.targets[0]) == it.id and ".split('\\t')" in norm(st.value) for st in walk_own(pf.node))
+        if not whole:
+            raise AnalysisError("R16.2", pf.where(loop), f"cannot trace what the tag loop iterates (`{it.id}`)")
     ctx.check(ok, "R16.2", pf.where(loop), "the tag loop scans the optional columns only (fields[12:]), so a read name or path shaped like a tag is never re-emitted as a field", key_of(pf, f"tag-loop-iter:{norm(it)}"), iter=norm(it))
 
 
